@@ -103,3 +103,8 @@ contract('DataReader.recv', module=M, props=['C05', 'C09', 'C14'],
          raises={'ConnectionLost': [], 'Timeout': [], 'OSError': [], 'MessageTooBig': [], 'AssertionError': []},
          modifies=['self.i', 'self.EOD', 'self.size', 'contents(self.lines)', 'self.io.recv_buffer', 'fresh'],
          loops={0: dict(inv=['DR_ok(self)', 'self.size >= 0'])})
+
+from pyvc.registry import bounded
+bounded(['C09', 'C05'], 'bounded/regex_contracts.py',
+        'assumed semantic contracts of io.line_pattern, datareader.fullline_pattern and eod_pattern compared with the '
+        'real compiled patterns (all strings <= 6 over {. CR LF a SP})')
